@@ -61,6 +61,34 @@ def gen_dirty(r):
     return items + tail
 
 
+def gen_mixed(r):
+    """Writes to a file stream, reads from the same stream index, writes to it again, and reports what it read.  hexsim keeps one
+    file object per index for both directions, so what such a program sees is hexsim's own business (the ISA reference is not consulted),
+    but it must not depend on the host: same simout bytes, output and status under every fill and configuration."""
+    s1 = r.choice([256, 0x200, 0x300, 0x7FF, 0x10200])
+    items = [('ref', 'BR', 'go'), ('data', 150000), ('label', 'go')]
+
+    def put(ch, stream):
+        return [('imm', 'LDAC', ch), ('imm', 'LDBM', 1), ('imm', 'STAI', 2), ('imm', 'LDAC', stream), ('imm', 'STAI', 3), ('imm', 'LDAC', 1), ('opr', 'SVC')]
+
+    def get(stream):
+        # read, then print the low byte of the result on the console
+        return [('imm', 'LDAC', stream), ('imm', 'LDBM', 1), ('imm', 'STAI', 2), ('imm', 'LDAC', 2), ('opr', 'SVC'), ('imm', 'LDAM', 1), ('imm', 'LDAI', 1),
+                ('imm', 'LDBM', 1), ('imm', 'STAI', 2), ('imm', 'LDAC', 0), ('imm', 'STAI', 3), ('imm', 'LDAC', 1), ('opr', 'SVC')]
+    for k in range(r.randint(1, 3)):
+        items += put(65 + k, s1)
+    for _ in range(r.randint(1, 2)):
+        items += get(s1 if r.random() < 0.8 else r.choice([0, 256, 0x300]))
+    for k in range(r.randint(1, 3)):
+        items += put(75 + k, s1)
+    if r.random() < 0.5:
+        # the other way round on another index: read first (opens simin), then write
+        s2 = r.choice([0x400, 0x500, 0x600])
+        items += get(s2) + put(90, s2)
+    items += [('imm', 'LDAC', 7), ('imm', 'LDBM', 1), ('imm', 'STAI', 2), ('imm', 'LDAC', 0), ('opr', 'SVC')]
+    return items
+
+
 def refrun(img, inp, scratch, max_steps=None):
     ip = os.path.join(scratch, 'ref.in')
     open(ip, 'wb').write(inp)
@@ -128,12 +156,12 @@ def exe_runs(img, inp, scratch, limit, trace):
 
 
 @driver.hang_is_failure(lambda why: (why, {'status': 'unknown', 'exit': 0, 'out': '', 'consumed': 0, 'steps': 0}))
-def check(img, inp, scratch, limit, trace):
+def check(img, inp, scratch, limit, trace, ref_defined=True):
     """Returns '' or a description."""
     ref = refrun(img, inp, scratch, max_steps=(limit + 1 if limit else 5000000))
     total_known = ref['status'] == 'exited'
     cut = bool(limit) and not total_known
-    if not limit and ref['status'] != 'exited':
+    if not limit and ref['status'] != 'exited' and ref_defined:
         return 'skip:' + ref['status'], ref
     runs, err = fill_runs(img, inp, scratch, limit, trace)
     if runs is None:
@@ -147,7 +175,7 @@ def check(img, inp, scratch, limit, trace):
             return 'fills: system-call sequence under fill %d differs from fill 0' % r['fill'], ref
     if first['error']:
         return 'fills: hexsim threw %s' % first['error'], ref
-    if not cut:
+    if not cut and ref_defined:
         if (first['rv'] & 0xFFFFFFFF) != ref['exit'] or first['consumed'] != ref['consumed'] or first['still_running']:
             return 'zero: run() returns %d (consumed %d, %s), the reference from zeroed memory exits with %d (consumed %d) within the same limit (trace=%s, limit=%s)' % (
                 first['rv'], first['consumed'], 'still running' if first['still_running'] else 'finished', ref['exit'], ref['consumed'], trace, limit), ref
@@ -161,7 +189,7 @@ def check(img, inp, scratch, limit, trace):
     for e in ex[1:]:
         if e['rc'] != e0['rc'] or e['used'] != e0['used'] or e['files'] != e0['files'] or (not trace and e['out'] != e0['out']):
             return 'host: hexsim under [%s] gives status %d/%d bytes read, under [%s] status %d/%d (limit %s)' % (e['cfg'], e['rc'], e['used'], e0['cfg'], e0['rc'], e0['used'], limit), ref
-    if not cut:
+    if not cut and ref_defined:
         if e0['rc'] != (ref['exit'] & 0xFF) or e0['used'] != ref['consumed'] or e0['files'] != ref['fileout']:
             return 'zero: hexsim exits %d after reading %d bytes, the reference from zeroed memory gives %d / %d' % (e0['rc'], e0['used'], ref['exit'] & 0xFF, ref['consumed']), ref
         if not trace and e0['out'].hex() != ref['out']:
@@ -178,7 +206,14 @@ def gen_case(rng, stats, extra):
     with driver.Scratch('c12') as scratch:
         x = rng.random()
         img = os.path.join(scratch, 'p.bin')
-        if x < 0.5:
+        if x < 0.08:
+            fam = 'mixed'
+            items = gen_mixed(rng)
+            src = asmgen.render(items)
+            open(os.path.join(scratch, 'p.S'), 'w', encoding='latin-1').write(src)
+            ok, r = toolchain.assemble(os.path.join(scratch, 'p.S'), img, scratch)
+            inp = bytes(rng.randrange(256) for _ in range(rng.randint(0, 2)))
+        elif x < 0.5:
             fam = 'dirty'
             items = gen_dirty(rng)
             src = asmgen.render(items)
@@ -212,24 +247,24 @@ def gen_case(rng, stats, extra):
         trace = rng.random() < 0.3
         lim_choice = rng.choice(['none', 'none', 'none', '0', '1', '5', 'k-1', 'k', 'k+1'])
         limit = {'none': 0, '0': 0, '1': 1, '5': 5, 'k-1': max(1, k - 2), 'k': max(1, k - 1), 'k+1': k}[lim_choice]
-        why, ref = check(img, inp, scratch, limit, trace)
+        why, ref = check(img, inp, scratch, limit, trace, ref_defined=(fam != 'mixed'))
         image_hex = open(img, 'rb').read().hex()
     if why.startswith('skip:'):
         stats.discard(why)
         return
     cut = bool(limit) and limit + 1 < k
-    nt = fam == 'dirty' or cut or trace
+    nt = fam in ('dirty', 'mixed') or cut or trace
     stats.case(key=(image_hex, inp, limit, trace), classes=['family:' + fam, 'limit:' + lim_choice, 'trace:%d' % trace, 'cut:%d' % cut, 'verdict:' + ('fail' if why else 'ok')],
                nontrivial=nt, sample={'family': fam, 'source': src[:400], 'limit': limit, 'trace': trace, 'reference': {k2: ref[k2] for k2 in ('status', 'exit', 'out', 'consumed', 'steps')}})
     if why:
-        raise hyp.Failure(dict(kind='c12', image=image_hex, input=inp.hex(), limit=limit, trace=trace, source=src, family=fam), why)
+        raise hyp.Failure(dict(kind='c12', image=image_hex, input=inp.hex(), limit=limit, trace=trace, source=src, family=fam, mixed=(fam == 'mixed')), why)
 
 
 def replay_case(case):
     with driver.Scratch('c12r') as scratch:
         img = os.path.join(scratch, 'p.bin')
         open(img, 'wb').write(bytes.fromhex(case['image']))
-        why, _ = check(img, bytes.fromhex(case['input']), scratch, case['limit'], case['trace'])
+        why, _ = check(img, bytes.fromhex(case['input']), scratch, case['limit'], case['trace'], ref_defined=not case.get('mixed'))
     return ('fail' if why and not why.startswith('skip:') else 'ok'), why
 
 
